@@ -16,6 +16,10 @@ import (
 
 func main() {
 	full := len(os.Args) > 1 && os.Args[1] == "full"
+	if len(os.Args) > 1 && os.Args[1] == "ws" {
+		smokeFull()
+		return
+	}
 	r, err := rig.New(rig.Options{Full: full})
 	if err != nil {
 		panic(err)
